@@ -172,7 +172,7 @@ fn build(has: &dyn Fn(usize) -> bool, vals: &Vals, img_kind: usize, xml_mode: u8
         }
     }
     ops.push(Op::Image(img));
-    Program { guid: "file-guid".into(), ops, xml_mode, no_finalize: false }
+    Program { guid: "file-guid".into(), ops, xml_mode, ..Default::default() }
 }
 
 pub const N_FIELDS: usize = 34;
@@ -262,6 +262,21 @@ pub fn floats(ctx: &Ctx) {
     let kind = 1 + ctx.pick("projection", 3);
     let vals = Vals { strings: vec!["s".into()], s0: 0, floats, f0, pose_kind: 0 };
     let p = build(&|_| true, &vals, kind, 0);
+    if judge(ctx, &p) {
+        ctx.nontrivial();
+    }
+}
+
+/// poses: every pose of the catalogue for the cloud, a neighbouring one for the image
+pub fn poses(ctx: &Ctx) {
+    let poses = crate::cat::poses();
+    let k = ctx.pick("pose", poses.len());
+    let kind = ctx.pick("projection", 5);
+    let mut c = cloud(crate::cat::xyz(crate::cat::F32), 2, 3);
+    c.meta.pose = Some(poses[k].clone());
+    let mut img = image(kind, false, 9, 4);
+    img.pose = Some(poses[(k + 9) % poses.len()].clone());
+    let p = Program { guid: "g".into(), ops: vec![Op::Cloud(c), Op::Image(img)], ..Default::default() };
     if judge(ctx, &p) {
         ctx.nontrivial();
     }
